@@ -191,6 +191,9 @@ type fileCtx struct {
 	keep    map[string]bool // original package names that may have lost all uses
 
 	mentionsOSFile bool
+	// osFileAsShim: the package passes its *os.File values only between its own declarations and the os
+	// functions behind the seam, so the type os.File itself is rewritten to the shim's File
+	osFileAsShim bool
 }
 
 // overlayTree maps every non-test Go file of src onto the corresponding path
@@ -266,14 +269,24 @@ func rewritePackage(fset *token.FileSet, imp types.Importer, p listPkg, src, rep
 		// we still rewrite what we can resolve.
 		fmt.Fprintf(os.Stderr, "vinstr: type errors in %s: %v\n", p.ImportPath, err)
 	}
+	asShim := osFileClosed(p.ImportPath, files, info)
 	for i, f := range files {
 		rel, _ := filepath.Rel(src, names[i])
-		fc := &fileCtx{fset: fset, info: info, file: f, relName: rel, need: map[string]bool{}, rep: rep, keep: map[string]bool{}}
+		fc := &fileCtx{fset: fset, info: info, file: f, relName: rel, need: map[string]bool{}, rep: rep, keep: map[string]bool{}, osFileAsShim: asShim}
 		// does this file name the type os.File explicitly? (then a wrapped handle would not type-check)
 		ast.Inspect(f, func(n ast.Node) bool {
 			if sel, ok := n.(*ast.SelectorExpr); ok && sel.Sel.Name == "File" {
 				if id, ok := sel.X.(*ast.Ident); ok && fc.pkgOf(id) == "os" {
-					fc.mentionsOSFile = true
+					if fc.osFileAsShim {
+						// the type itself becomes the shim's File (see osFileClosed)
+						fc.keep[id.Name] = true
+						id.Name = "zzvos"
+						fc.need["vos"] = true
+						fc.changed = true
+						fc.rep.SelectorRewrites["os.File (type)"]++
+					} else {
+						fc.mentionsOSFile = true
+					}
 				}
 			}
 			return true
@@ -303,6 +316,100 @@ func rewritePackage(fset *token.FileSet, imp types.Importer, p listPkg, src, rep
 		replace[filepath.Join(repo, rel)] = dst
 		rep.Files++
 	}
+}
+
+// mentionsOSFileType reports whether t is, or is built from, the named type os.File.
+func mentionsOSFileType(t types.Type, depth int) bool {
+	if t == nil || depth > 6 {
+		return false
+	}
+	switch x := t.(type) {
+	case *types.Named:
+		o := x.Obj()
+		return o != nil && o.Pkg() != nil && o.Pkg().Path() == "os" && o.Name() == "File"
+	case *types.Pointer:
+		return mentionsOSFileType(x.Elem(), depth+1)
+	case *types.Slice:
+		return mentionsOSFileType(x.Elem(), depth+1)
+	case *types.Array:
+		return mentionsOSFileType(x.Elem(), depth+1)
+	case *types.Map:
+		return mentionsOSFileType(x.Key(), depth+1) || mentionsOSFileType(x.Elem(), depth+1)
+	case *types.Chan:
+		return mentionsOSFileType(x.Elem(), depth+1)
+	case *types.Signature:
+		for i := 0; i < x.Params().Len(); i++ {
+			if mentionsOSFileType(x.Params().At(i).Type(), depth+1) {
+				return true
+			}
+		}
+		for i := 0; i < x.Results().Len(); i++ {
+			if mentionsOSFileType(x.Results().At(i).Type(), depth+1) {
+				return true
+			}
+		}
+	case *types.Tuple:
+		for i := 0; i < x.Len(); i++ {
+			if mentionsOSFileType(x.At(i).Type(), depth+1) {
+				return true
+			}
+		}
+	}
+	return false
+}
+
+// osFileClosed decides whether the type os.File can be replaced by the shim's File throughout one package:
+// every expression whose type involves os.File must be (a) a call of one of the os functions behind the seam,
+// (b) a name / field / call of something declared in this very package (whose declared type is rewritten with
+// it), or (c) a plain *os.File-typed operand of those. Anything else (os.Stdout, os.NewFile, a function of
+// another package that takes or returns *os.File, a slice of files handed elsewhere) keeps the old behaviour:
+// files naming os.File are left on the real handle functions and listed as uncontrolled.
+func osFileClosed(importPath string, files []*ast.File, info *types.Info) bool {
+	mentioned := false
+	ok := true
+	local := func(o types.Object) bool { return o != nil && o.Pkg() != nil && o.Pkg().Path() == importPath }
+	for _, f := range files {
+		ast.Inspect(f, func(n ast.Node) bool {
+			e, isExpr := n.(ast.Expr)
+			if !isExpr || !ok {
+				return ok
+			}
+			tv, has := info.Types[e]
+			if !has || !mentionsOSFileType(tv.Type, 0) {
+				return true
+			}
+			if tv.IsType() {
+				mentioned = true
+				return true
+			}
+			switch x := e.(type) {
+			case *ast.Ident:
+				if o := info.Uses[x]; o != nil && !local(o) {
+					ok = false
+				}
+			case *ast.SelectorExpr:
+				if id, isID := x.X.(*ast.Ident); isID {
+					if pn, isPkg := info.Uses[id].(*types.PkgName); isPkg {
+						// a qualified identifier: only the seam functions themselves are fine
+						if !(pn.Imported().Path() == "os" && osHandle[x.Sel.Name]) {
+							ok = false
+						}
+						return true
+					}
+				}
+				if o := info.Uses[x.Sel]; o != nil && !local(o) {
+					ok = false // a field or method of a foreign type that carries a file
+				}
+			case *ast.CallExpr:
+				// the callee is judged as an expression of its own (its signature mentions os.File)
+			case *ast.ParenExpr, *ast.StarExpr, *ast.UnaryExpr, *ast.IndexExpr, *ast.TypeAssertExpr, *ast.FuncLit, *ast.CompositeLit, *ast.SliceExpr, *ast.KeyValueExpr:
+			default:
+				ok = false
+			}
+			return ok
+		})
+	}
+	return mentioned && ok
 }
 
 func (fc *fileCtx) pkgOf(id *ast.Ident) string {
